@@ -268,7 +268,7 @@ def wirePred (prop : String) (caseLine obsLine : String) : String :=
           | "C03" => P_C03 cfg fs obs
           | "C04" => P_C04 cfg fs obs
           | "C05" => P_C05 cfg fs obs
-          | "C06" => P_C06 cfg fs obs
+          | "C06" => P_C06 cfg fs total obs
           | _ => some "unknown-property"
         match v with
         | none => "ok"
